@@ -821,7 +821,7 @@ func c15RefusalClass(err error) string {
 		{"role requires", "key-mismatch"}, {"minimum of a", "key-mismatch"}, {"RSA keys <", "key-mismatch"}, {"role key type", "key-mismatch"},
 		{"not_after_bound", "not-after-bound"}, {"not_before_bound", "not-before-bound"}, {"beyond the expiration of the CA", "beyond-issuer"},
 		{"Either ttl or not_after", "ttl-and-not-after"}, {"is in the past", "in-the-past"}, {"Not Before", "not-before-after-not-after"},
-		{"common_name field is required", "cn-required"}, {"idna", "idna-error"},
+		{"common_name field is required", "cn-required"}, {"idna", "idna-error"}, {"IA5String", "not-ia5-internal-error"},
 	} {
 		if strings.Contains(s, p[0]) {
 			return p[1]
@@ -961,8 +961,8 @@ func c15RunOne(rt *rapid.T, rec *verifx.Recorder, m *c15Mount, role *c15Role, q 
 		if err == nil {
 			rt.Fatalf("harness: nil response without error from %s", path)
 		}
-		if vxIsInternal(err) || c15RefusalClass(err) == "other" {
-			rec.Class("refused-internal-or-unclassified", 1)
+		if c15RefusalClass(err) == "other" {
+			rec.Class("refused-unclassified", 1)
 			rec.Note("unclassified refusal: %s | %s %v", verifx.Trunc(err.Error(), 300), path, sample().(map[string]any)["request"])
 		}
 		rec.Case(q.Endpoint+":refused", nontrivial, digest, sample)
@@ -1254,8 +1254,4 @@ func c15EffectiveNames(r *c15Role, q *c15Req) []string {
 	}
 	sort.Strings(out)
 	return out
-}
-
-func vxIsInternal(err error) bool {
-	return err != nil && !strings.Contains(err.Error(), "not allowed") && strings.Contains(err.Error(), "internal")
 }
